@@ -695,7 +695,11 @@ func (req *Request) BodyUncompressed() ([]byte, error) {
 func (req *Request) BodyUncompressedWithLimit(maxBodySize int) ([]byte, error) {
 	switch string(req.Header.ContentEncoding()) {
 	case "":
-		return req.Body(), nil
+		body := req.Body()
+		if maxBodySize > 0 && len(body) > maxBodySize {
+			return nil, ErrBodyTooLarge
+		}
+		return body, nil
 	case "deflate":
 		return req.BodyInflateWithLimit(maxBodySize)
 	case "gzip":
@@ -726,7 +730,11 @@ func (resp *Response) BodyUncompressed() ([]byte, error) {
 func (resp *Response) BodyUncompressedWithLimit(maxBodySize int) ([]byte, error) {
 	switch string(resp.Header.ContentEncoding()) {
 	case "":
-		return resp.Body(), nil
+		body := resp.Body()
+		if maxBodySize > 0 && len(body) > maxBodySize {
+			return nil, ErrBodyTooLarge
+		}
+		return body, nil
 	case "deflate":
 		return resp.BodyInflateWithLimit(maxBodySize)
 	case "gzip":
